@@ -165,6 +165,9 @@ def replay(pid, path, work):
 
 def check(pid, prop, tier, seed, work):
     t0 = time.time()
+    for f in os.listdir(os.path.join(ROOT, "replays")):
+        if f.startswith(pid + "-"):
+            os.unlink(os.path.join(ROOT, "replays", f))
     findings = [f for f in load_findings() if f["property"] == pid]
     lines = []
     reported_known = set()
